@@ -7,6 +7,7 @@ import Juniper.Proofs.IterLast
 import Juniper.Proofs.StreamLast
 import Juniper.Proofs.Pipeline
 import Juniper.Proofs.Minimal
+import Juniper.Proofs.IterEqual
 /-!
 # C07 — iterator / stream / xslices combinators compute their documented sequence function;
 lazy; sticky end (property theorems)
@@ -225,6 +226,15 @@ theorem last_eq {m : IM σ α} {cost : σ → Nat} {s : σ} {L : List (α × Nat
 
 example : Seq.lastN 0 [1, 2, 3] = [] ∧ Seq.lastN 2 [1, 2, 3] = [2, 3] ∧ Seq.lastN 5 [1, 2, 3] = [1, 2, 3] := by decide
 
+/-- `iterator.Equal(its...)`: `true` iff all iterators yield the same items in the same order
+(`s0` yields `l0`, the others `ls`; rounds = how often the first iterator is advanced). -/
+theorem equal_eq [DecidableEq α] {m : IM σ α} (l0 : List α) (s0 : σ) (r : List σ) (ls : List (List α))
+    (h0 : DenL m s0 l0) (h : All2 (DenL m) r ls) :
+    ∃ F, ∀ fuel, F ≤ fuel → ∀ rounds, l0.length + 1 ≤ rounds →
+      (equal m fuel rounds (s0 :: r)).1 = some (decide (∀ l ∈ ls, l = l0)) := equal_den l0 s0 r ls h0 h
+
+example : DenL src (Src.of [1, 2]) [1, 2] := ⟨_, _, _, slice_denotes [1, 2], by decide⟩
+
 /-- **`pipeline_denotes`**: a pipeline of any depth (element-type-preserving stages over a slice
 source) yields the composition of the documented list functions. -/
 theorem pipeline_denotes {α : Type} (p : Pipe α) :
@@ -430,6 +440,65 @@ theorem iter_stream_agree_compact (eq : α → α → Bool) (l : List α) :
       SDen Stream.Err.soft (Stream.compact eq Stream.src) (fun st => st.inner.pulled)
         ⟨Stream.Src.of (l.map Stream.Ev.item), true, none⟩ L (.end_ l.length) :=
   ⟨_, compact_den eq (slice_denotes l) none, compact_sden eq (iter_stream_agree_source l).2 none⟩
+
+/-- `First`: iterator and stream versions agree (same items, same pull counts, the end without a further pull). -/
+theorem iter_stream_agree_first (n : Nat) (l : List α) :
+    ∃ L e, Den (Iter.first Iter.src) (fun st => st.inner.pulled) ⟨Iter.Src.of l, n, false⟩ L e ∧
+      SDen Stream.Err.soft (Stream.first Stream.src) (fun st => st.inner.pulled)
+        ⟨Stream.Src.of (l.map Stream.Ev.item), n⟩ L (.end_ e) := by
+  refine ⟨(annot 0 l).take n, firstEnd 0 n (annot 0 l) l.length, ?_, ?_⟩
+  · simpa [Iter.Src.of] using (first_den (slice_denotes l)).1 (n : Int)
+  · have h := first_sden (soft := Stream.Err.soft) (iter_stream_agree_source l).2 (n : Int)
+    have e : ∀ (c0 k : Nat) (L : List (α × Nat)) (e : Nat),
+        firstTermS c0 k L (.end_ e) = .end_ (firstEnd c0 k L e) := by
+      intro c0 k L
+      induction k generalizing c0 L with
+      | zero => intro e; rfl
+      | succ k ih =>
+        intro e
+        cases L with
+        | nil => rfl
+        | cons p L => obtain ⟨a, c⟩ := p; exact ih c L e
+    rw [e] at h
+    simpa [Stream.Src.of] using h
+
+/-- `While`: iterator and stream versions agree. -/
+theorem iter_stream_agree_while (f : α → Bool) (l : List α) :
+    ∃ L e, Den (Iter.while_ f Iter.src) (fun st => st.inner.pulled) ⟨Iter.Src.of l, false⟩ L e ∧
+      SDen Stream.Err.soft (Stream.while_ (fun a => .ok (f a)) Stream.src) (fun st => st.inner.pulled)
+        ⟨Stream.Src.of (l.map Stream.Ev.item), none, false⟩ L (.end_ e) := by
+  refine ⟨(annot 0 l).takeWhile fun p => f p.1, whileEnd f (annot 0 l) l.length, while_den f (slice_denotes l), ?_⟩
+  have h := while_sden (soft := Stream.Err.soft) (fun a => Except.ok (f a)) (by intro a e h; cases h)
+    (iter_stream_agree_source l).2
+  have e : ∀ (L : List (α × Nat)) (k : Nat),
+      whileS (fun a => Except.ok (f a)) L (.end_ k) = (L.takeWhile fun p => f p.1, .end_ (whileEnd f L k)) := by
+    intro L k
+    induction L with
+    | nil => rfl
+    | cons p L ih =>
+      obtain ⟨a, c⟩ := p
+      simp only [whileS, List.takeWhile_cons, whileEnd]
+      cases f a <;> simp [ih]
+  rw [e] at h
+  exact h
+
+/-- `Runs` under the documented protocol: iterator and stream versions agree (and both are `Seq.runs`,
+see `runs_denotes` / `s_runs_spec`). -/
+theorem iter_stream_agree_runs (same : α → α → Bool) (take : Option Nat) (L : List (α × Nat)) (e : Nat) :
+    runsStartS same take L (.end_ e) = runsStartA same take L e := by
+  have key : ∀ (mode : Option (List α)) (prev : α) (L : List (α × Nat)),
+      runsGoS same take mode prev L (.end_ e) = runsGoA same take mode prev L e := by
+    intro mode prev L
+    induction L generalizing mode prev with
+    | nil => cases mode <;> rfl
+    | cons p L ih =>
+      obtain ⟨b, c⟩ := p
+      cases mode <;> simp [runsGoS, runsGoA, ih, IterDen.reached]
+  cases L with
+  | nil => rfl
+  | cons p L =>
+    obtain ⟨b, c⟩ := p
+    simp [runsStartS, runsNewS, runsStartA, key, IterDen.reached]
 
 end agree
 
